@@ -148,9 +148,9 @@ struct World {
     expires: Vec<u64>,
     editor: Vec<bool>,
     snap: Snap,
-    /// snapshots handed to (token, key): version -> (content, physical file at issue time, tainted,
+    /// snapshots handed to (token, key): version -> (content, physical file at issue time,
     /// external: the harness itself rewrote the file afterwards)
-    issued: HashMap<(usize, String), BTreeMap<u64, (String, Vec<String>, bool, bool)>>,
+    issued: HashMap<(usize, String), BTreeMap<u64, (String, Vec<String>, bool)>>,
     /// operation counter and, per issued snapshot, the counter value at issue time
     seq: u64,
     issue_seq: HashMap<(usize, String, u64), u64>,
@@ -297,24 +297,6 @@ impl World {
         let r = c.strip_prefix(&self.base).ok()?;
         Some(r.components().map(|c| c.as_os_str().to_string_lossy().to_string()).collect())
     }
-
-    /// after an operation removed / moved physical paths: every snapshot issued for a file below
-    /// one of them is no longer covered by the version protocol as implemented (known finding
-    /// C19-version-reuse); taint exactly those.
-    fn taint(&mut self, changed: &[(Vec<String>, bool)]) {
-        for (p, removed) in changed {
-            if !*removed {
-                continue;
-            }
-            for snaps in self.issued.values_mut() {
-                for (_, (_, phys, tainted, _)) in snaps.iter_mut() {
-                    if phys.len() >= p.len() && phys[..p.len()] == p[..] {
-                        *tainted = true;
-                    }
-                }
-            }
-        }
-    }
 }
 
 /// display names (backslashes shown as '/') of the visible entries physically below the root:
@@ -447,7 +429,7 @@ fn exec(w: &mut World, op: &Op, n: u64, out: &mut Out) {
             let faithful = w.hist.get(phys).is_some_and(|h| h.iter().any(|(_, c)| c == content));
             if !faithful {
                 for snaps in w.issued.values_mut() {
-                    for (_, (_, f, _, external)) in snaps.iter_mut() {
+                    for (_, (_, f, external)) in snaps.iter_mut() {
                         if f == phys {
                             *external = true;
                         }
@@ -533,23 +515,18 @@ fn exec(w: &mut World, op: &Op, n: u64, out: &mut Out) {
                                 _ => None,
                             }),
                         };
-                        if let (Some((base, phys, tainted, external)), Some(disk)) = (base, disk_before) {
+                        if let (Some((base, phys, external)), Some(disk)) = (base, disk_before) {
                             if base != disk && !external {
-                                // exactly the listed open findings are classified: the snapshot
-                                // predates a removal of the file (version reuse), or a successful
+                                // exactly the listed open finding is classified: a successful
                                 // write since the snapshot went through ANOTHER document key that
-                                // names the same file (alias through an in-root link)
+                                // names the same file (alias through an in-root link).  A snapshot
+                                // that predates a removal / re-creation of the file is judged like
+                                // any other (C19-version-reuse is repaired: versions are not reused)
                                 let since = w.issue_seq.get(&(*tok, r.path.clone(), *expected)).copied().unwrap_or(u64::MAX);
                                 let alias = w.writes.get(&phys).is_some_and(|ws| {
                                     ws.iter().any(|(s, k)| *s > since && k != &r.path)
                                 });
-                                let class = if tainted {
-                                    Some("C19-version-reuse")
-                                } else if alias {
-                                    Some("C19-alias-keys")
-                                } else {
-                                    None
-                                };
+                                let class = if alias { Some("C19-alias-keys") } else { None };
                                 lost_update = Some((
                                     format!(
                                         "write with expected={expected} based on {:?} overwrote {:?}",
@@ -694,7 +671,6 @@ fn exec(w: &mut World, op: &Op, n: u64, out: &mut Out) {
             None => w.oracle_fail(out, n, "lost-update", &line, &detail),
         }
     }
-    w.taint(&changed);
     w.seq += 1;
     for (p, removed) in &changed {
         if *removed {
@@ -715,7 +691,7 @@ fn exec(w: &mut World, op: &Op, n: u64, out: &mut Out) {
     }
     if let Some((tok, key, version, content)) = issued_now {
         let phys = w.physical_of(&key).unwrap_or_default();
-        w.issued.entry((tok, key)).or_default().insert(version, (content, phys, false, false));
+        w.issued.entry((tok, key)).or_default().insert(version, (content, phys, false));
     }
     if let Op::Apply { content, .. } = op {
         // disk = content of the last successful write
@@ -1186,6 +1162,31 @@ fn scripted_rename_symbol(w: &mut World, n: u64, out: &mut Out) {
     let _ = std::fs::write(&r, RENAME_SRC);
     w.snap = snapshot(&w.base);
     let Ok(sess) = w.state.create_session(IdeRole::Editor) else { return };
+    // a buffer that is not what the file holds is refused and nothing is written (repair of
+    // C19-rename-symbol-bypass: the rename result is written without an expected version)
+    let stale = RENAME_SRC.replace("foo := 1;", "foo := 0;");
+    let before = w.snap.clone();
+    let refused = catch_unwind(AssertUnwindSafe(|| {
+        w.state
+            .rename_symbol(&sess.token, "r.st", Some(stale), Position { line: 2, character: 5 }, "bar", true)
+            .map(|r| r.edit_count)
+            .map_err(|e| (e.kind() == IdeErrorKind::Conflict, err_str(&e)))
+    }));
+    let after = snapshot(&w.base);
+    let (_, changed) = diff(&before, &after);
+    w.snap = after;
+    match refused {
+        Ok(Err((true, _))) if changed.is_empty() => out.count("scripted_rename_symbol_stale_refused"),
+        Err(_) => {
+            out.count("incidental_panic_in_analysis_op");
+            out.line(format!("# NOTE incidental panic in scripted rename_symbol(r.st, stale buffer)"));
+            return;
+        }
+        other => {
+            let detail = format!("answer {:?}, changed {:?}", other, changed.iter().map(|c| c.0.join("/")).collect::<Vec<_>>());
+            w.oracle_fail(out, n, "lost-update", "oracle-only scripted rename_symbol(r.st, buffer differs from the file)", &detail);
+        }
+    }
     let before = w.snap.clone();
     let res = catch_unwind(AssertUnwindSafe(|| {
         w.state
@@ -1416,7 +1417,8 @@ fn corpus(k: u64) -> Option<Vec<Op>> {
             de(0, "dhid/secret.st"), rn(0, "main.st", "dhid/main.st"), cr(0, "dhid/sub", true, None),
             cr(0, "din/.cache/new.st", false, Some("x")), o(0, "din/.cache/c.st"),
         ]),
-        // OPEN finding C19-version-reuse: delete + create restarts the version at 1
+        // C19-version-reuse (repaired): delete + create restarted the version at 1, so A's snapshot
+        // (v1) matched the re-created document; versions are never reused now, A must conflict
         4 => Some(vec![
             Op::Session(true), Op::Session(true),
             o(0, "main.st"), o(1, "main.st"), ap(1, "main.st", 1, "B1\n"),
@@ -1492,11 +1494,38 @@ fn corpus(k: u64) -> Option<Vec<Op>> {
             o(0, "main.st.tmp"), de(0, "main.st.tmp"), o(0, "main.st~"), ap(0, "main.st~", 1, "bk\n"),
             rn(0, "main.st", "main2.st"), rn(0, "main2.st", "main.st"), Op::List { tok: 0 },
         ]),
+        // C19-version-reuse (repaired), the other ways a path gets a new document.
+        // 11: renamed away and re-created
+        11 => Some(vec![
+            Op::Session(true), Op::Session(true),
+            o(0, "main.st"), o(1, "main.st"), ap(1, "main.st", 1, "B1\n"),
+            rn(1, "main.st", "moved.st"), cr(1, "main.st", false, Some("B2 precious\n")),
+            ap(0, "main.st", 1, "A stale\n"), ap(0, "main.st", 2, "A stale 2\n"), o(1, "main.st"),
+            o(0, "moved.st"), ap(0, "moved.st", 1, "A stale moved\n"), ap(0, "moved.st", 2, "A stale moved 2\n"),
+            Op::Health { tok: 0 },
+        ]),
+        // 12: a document renamed ONTO a path whose earlier document was deleted (A's snapshot v2
+        // of the old one matched the moved one)
+        12 => Some(vec![
+            Op::Session(true), Op::Session(true),
+            o(0, "lib/util.st"), o(1, "lib/util.st"), ap(1, "lib/util.st", 1, "U1\n"), o(0, "lib/util.st"),
+            de(1, "lib/util.st"), o(1, "lib_types.st"), rn(1, "lib_types.st", "lib/util.st"),
+            ap(0, "lib/util.st", 2, "A stale util\n"), o(1, "lib/util.st"), Op::Health { tok: 0 },
+        ]),
+        // 13: a folder deleted and re-created; a folder renamed and a file created in its place
+        13 => Some(vec![
+            Op::Session(true), Op::Session(true),
+            o(0, "lib2/u.st"), o(1, "lib2/u.st"), ap(1, "lib2/u.st", 1, "V1\n"), de(1, "lib2"),
+            cr(1, "lib2/u.st", false, Some("V2 precious\n")), ap(0, "lib2/u.st", 1, "A stale u\n"),
+            o(1, "lib2/u.st"), rn(1, "lib2", "lib3"), cr(1, "lib2/u.st", false, Some("V3 precious\n")),
+            ap(0, "lib2/u.st", 1, "A stale u 1\n"), ap(0, "lib2/u.st", 2, "A stale u 2\n"),
+            o(0, "lib3/u.st"), o(0, "lib2/u.st"), Op::Health { tok: 0 },
+        ]),
         _ => None,
     }
 }
 
-const CORPUS_LEN: u64 = 11;
+const CORPUS_LEN: u64 = 14;
 
 fn run_case(args: &Args, n: u64, out: &mut Out) -> u64 {
     let mut rng = Rng::for_case(args.seed, n);
@@ -1610,9 +1639,11 @@ fn run_case(args: &Args, n: u64, out: &mut Out) -> u64 {
     fails
 }
 
-/// OPEN finding C19-rename-symbol-bypass: `rename_symbol` with a stale buffer overwrites a newer
-/// successful write without any version check.  Replayed on every run; reported as a known finding
-/// while it reproduces.
+/// C19-rename-symbol-bypass (repaired): `rename_symbol` with a stale buffer overwrote a newer
+/// successful write without any version check.  Replayed on every run: the stale buffer must be
+/// refused with the current version and leave the file alone; with the buffer the file really
+/// holds (and without a buffer) the rename goes through, on the latest content, and bumps the
+/// version, so a save based on the pre-rename snapshot conflicts.
 fn replay_rename_symbol_bypass(args: &Args, out: &mut Out) {
     let base = std::env::temp_dir().join(format!("c19-{}-{}-rs", std::process::id(), args.seed));
     let _ = std::fs::remove_dir_all(&base);
@@ -1626,15 +1657,56 @@ fn replay_rename_symbol_bypass(args: &Args, out: &mut Out) {
     let ra = state.open_source(&a, "r.st").expect("open");
     let rb = state.open_source(&b, "r.st").expect("open");
     let wb = state.apply_source(&b, "r.st", rb.version, newer.to_string(), true);
-    let rr = state.rename_symbol(&a, "r.st", Some(ra.content.clone()), Position { line: 2, character: 5 }, "bar", true);
-    let disk = std::fs::read_to_string(root.join("r.st")).unwrap_or_default();
-    if wb.is_ok() && rr.is_ok() && !disk.contains("precious") {
-        out.count("known_rename_symbol_bypass_seen");
+    let pos = || Position { line: 2, character: 5 };
+    let fail = |out: &mut Out, detail: String| {
+        out.count("oracle_fail_lost-update");
         out.line(format!(
-            "# KNOWN C19-rename-symbol-bypass: B's successful write (v{}) was overwritten by A's rename_symbol on a stale buffer; disk = {}",
-            wb.map(|r| r.version).unwrap_or(0),
+            "# ORACLE-FAIL {{\"case\": \"known\", \"class\": \"lost-update\", \"op\": \"replay of C19-rename-symbol-bypass: A opens r.st, B saves a newer text, A calls rename_symbol(content = A's stale buffer)\", \"detail\": {}}}",
+            json_escape(&detail)
+        ));
+    };
+    let wb_version = wb.as_ref().map(|r| r.version).unwrap_or(0);
+    // 1. the stale buffer
+    let rr = state.rename_symbol(&a, "r.st", Some(ra.content.clone()), pos(), "bar", true);
+    let disk = std::fs::read_to_string(root.join("r.st")).unwrap_or_default();
+    if wb.is_err() {
+        fail(out, format!("B's honest save was refused: {:?}", wb.as_ref().err().map(err_str)));
+    }
+    if disk != newer {
+        fail(out, format!(
+            "B's successful write (v{wb_version}) was overwritten by A's rename_symbol on a stale buffer (answer {:?}); disk = {}",
+            rr.as_ref().map(|r| r.edit_count).map_err(err_str),
             json_escape(&disk)
         ));
+    }
+    match &rr {
+        Err(e) if e.kind() == IdeErrorKind::Conflict && e.current_version() == Some(wb_version) => {
+            out.count("rename_symbol_stale_buffer_refused");
+        }
+        other => fail(out, format!(
+            "rename_symbol on a stale buffer must answer conflict with current version {wb_version}, got {:?}",
+            other.as_ref().map(|r| r.edit_count).map_err(err_str)
+        )),
+    }
+    // 2. the buffer the file really holds: goes through on the latest content, version bumped
+    let r2 = state.rename_symbol(&a, "r.st", Some(newer.to_string()), pos(), "bar", true);
+    let disk2 = std::fs::read_to_string(root.join("r.st")).unwrap_or_default();
+    let want2 = newer.replace("foo", "bar");
+    match &r2 {
+        Ok(r) if disk2 == want2 && r.changed_files.iter().any(|c| c.path == "r.st" && c.version == wb_version + 1) => {
+            out.count("rename_symbol_current_buffer_applied");
+        }
+        other => fail(out, format!(
+            "rename_symbol with the current buffer must rename on the latest content and bump v{wb_version}: answer {:?}, disk = {}",
+            other.as_ref().map(|r| r.changed_files.iter().map(|c| (c.path.clone(), c.version)).collect::<Vec<_>>()).map_err(err_str),
+            json_escape(&disk2)
+        )),
+    }
+    // 3. B's save based on its pre-rename snapshot must now conflict
+    let w3 = state.apply_source(&b, "r.st", wb_version, "B based on the text before the rename\n".to_string(), true);
+    let disk3 = std::fs::read_to_string(root.join("r.st")).unwrap_or_default();
+    if w3.is_ok() || disk3 != disk2 {
+        fail(out, format!("a save based on the snapshot before rename_symbol went through: disk = {}", json_escape(&disk3)));
     }
     let _ = std::fs::remove_dir_all(&base);
 }
